@@ -5,8 +5,13 @@ batches, replays into either table, snapshots through a table, direct writes to 
 specs/kv/TableCompact.tla (trace spec: the range Compact(nil,nil) hands to the underlying store covers the
 prefix).  TLC explores the bounded model; every transition is replayed (pattern R) on real tables over a
 recorder over memorydb / LevelDB / Pebble, comparing both table views, the snapshot view, the raw content of
-the underlying store and the set of raw keys each call wrote; recorded Compact ranges are validated by TLC."""
+the underlying store and the set of raw keys each call wrote; recorded Compact ranges are validated by TLC.
+Tables are also used the way callers use them (pattern T, specs/kv/TableIter.tla): iterators held open while
+lookups and writes go through the same table, a sibling table under the same parent and the store underneath,
+with prefix/key slices that have spare capacity and caller-owned buffers that are overwritten after each call;
+an iterator that saw no write since its creation must yield exactly the table view."""
 import json
+import os
 
 import vlib
 from checks import c23 as kvlib
@@ -14,6 +19,33 @@ from checks import c23 as kvlib
 
 def hexs(b):
     return "".join("%02x" % x for x in b)
+
+
+def start_table_iter(c, conf):
+    """Record and validate the held-open-iterator scenarios in a thread while the edge replay runs."""
+    import threading
+    box = {}
+
+    def work():
+        try:
+            confp = c.path("conf-titer.json")
+            with open(confp, "w") as f:
+                json.dump(conf, f)
+            tr = c.path("table_iter_trace.ndjson")
+            box["ist"] = json.loads(c.vh(["kvtiter", "-conf", confp, c.pick(200, 3500), tr]).stdout)
+            box["tv"] = vlib.validate_scenarios(c, "kv", "TableIter", tr, chunks=c.pick(3, 6))
+        except Exception as e:  # noqa: BLE001  (re-raised by the waiter)
+            box["err"] = e
+
+    t = threading.Thread(target=work)
+    t.start()
+
+    def wait():
+        t.join()
+        if "err" in box:
+            raise box["err"]
+        return box["ist"], box["tv"]
+    return wait
 
 
 def run(c):
@@ -24,6 +56,7 @@ def run(c):
     c.log("TLC: %d distinct states, %d transitions (%d printed, %d state lines, %.0fs)" % (res.distinct, res.generated, ne, ns, res.wall))
     c.guard("tlc_transitions", ne)
     built()
+    titer = start_table_iter(c, conf)
     adapters = ["rec:mem", "rec:ldb", "rec:peb"]
     out = kvlib.kv_replay(c, "tb", adapters, ex, conf, walks=c.pick(40, 300), wlen=c.pick(60, 150), par=3,
                           clause="table-view")
@@ -58,10 +91,31 @@ def run(c):
             "cover the table's prefix" % (bad["t"], bad["cfg"], bad["backend"]), replay=bad)
         pending = pending[ln:]
     c.log("compact ranges: %d observed, %d accepted by TableCompact.tla" % (len(obs), accepted))
+    # ---- iterators held open while the table, its siblings and the store are used (pattern T; ran concurrently)
+    ist, tv = titer()
+    if [d for d in os.listdir(c.scratch) if d.startswith("kvti-")]:
+        raise vlib.Infra("kvtiter left its database directory behind")
+    c.log("table iterator scenarios recorded:", ist)
+    for g in ("yields", "yields_strict", "lookups_under_iterator", "writes_under_iterator"):
+        c.guard("titer_" + g, ist.get(g, 0))
+    for rej in tv["rejections"]:
+        rec = rej["record"]
+        op = rec.get("op") if isinstance(rec, dict) else "?"
+        reset = rej["scenario"][0]
+        c.violation("table-open-iterator", "%s:%s" % (reset.get("backend"), op),
+                    "tables with prefixes %s over %s: line %d of the scenario, %s, is not what the table view allows "
+                    "(TableIter.tla: Get/Has = view; an iterator with no write since its creation yields exactly the view's "
+                    "range in order; otherwise ascending in-range pairs that were in the view)" % (
+                        [hexs(x) for x in reset.get("prefixes", [])], reset.get("backend"), rej["line"], json.dumps(rec)[:300]),
+                    replay=rej)
+    c.log("table iterator traces: %d scenarios, %d lines validated, %d rejections" % (
+        tv["scenarios"], tv["validated_lines"], len(tv["rejections"])))
     reports = kvlib.summarize(out)
     return c.finish("model_checking", dict(
         states=res.distinct, transitions=res.generated,
-        traces_validated_against_impl=sum(r["walks"] for r in reports.values()) + runs,
+        traces_validated_against_impl=sum(r["walks"] for r in reports.values()) + runs + tv["scenarios"],
+        table_iterator_scenarios=tv["scenarios"], table_iterator_trace_lines_validated=tv["validated_lines"],
+        table_iterator_stats=ist,
         edges_replayed_on_impl=sum(r["applied"] for r in reports.values()),
         compact_ranges_validated=accepted, prefix_pairs=conf["cfgs"],
         exhaustive=True,
@@ -74,4 +128,6 @@ def run(c):
     ), assumptions=[
         "the recorder sits between the tables and the backend; keys queued in a batch count as written when the batch is written",
         "only Compact(nil, nil) is judged (the property speaks of compacting a whole table)",
+        "caller-owned key/value buffers are overwritten after each call returns; the slices passed to NewIterator only after "
+        "the iterator is released (stores may keep iterator bounds, as LevelDB and Pebble document)",
         "TLC/SANY/Json/IOUtils modules trusted; Go projection = Get/Has/NewIterator on tables and snapshot + direct read of the backend"])
